@@ -213,6 +213,12 @@ def app_goldens(rng):
     out.append(("dhcp_end_pads", "DHCP", bootp + bytes([0x63, 0x82, 0x53, 0x63]) + opts + bytes([255, 0, 0, 0, 0, 0])))
     out.append(("dhcp_pad_between", "DHCP", bootp + bytes([0x63, 0x82, 0x53, 0x63]) + bytes([0, 53, 1, 2, 0, 0, 51, 4, 0, 0, 14, 16, 255])))
     out.append(("dhcp_no_end", "DHCP", bootp + bytes([0x63, 0x82, 0x53, 0x63]) + opts))
+    # options whose length octet is 0 (Rapid Commit, RFC 4039) between and behind ordinary options; a zero-length option last
+    out.append(("dhcp_zero_len_between", "DHCP", bootp + bytes([0x63, 0x82, 0x53, 0x63]) + bytes([53, 1, 1, 80, 0, 12, 3, 97, 98, 99, 255])))
+    out.append(("dhcp_zero_len_last", "DHCP", bootp + bytes([0x63, 0x82, 0x53, 0x63]) + bytes([53, 1, 1, 12, 3, 97, 98, 99, 80, 0, 255])))
+    out.append(("dhcp_zero_len_first_no_end", "DHCP", bootp + bytes([0x63, 0x82, 0x53, 0x63]) + bytes([80, 0, 53, 1, 5])))
+    # DHCPv6 options of length 0 as well (Rapid Commit, option 14)
+    out.append(("dhcp6_rapid_commit", "DHCPv6", bytes([1, 0x12, 0x34, 0x56]) + struct.pack("!HH", 14, 0) + struct.pack("!HH", 8, 2) + bytes([0, 0]) + struct.pack("!HH", 14, 0)))
     # DHCPv6: SOLICIT with client id (DUID-LL), elapsed time, option request, IA_NA with a nested address
     d6 = bytes([1, 0x12, 0x34, 0x56]) + struct.pack("!HH", 1, 10) + struct.pack("!HH", 3, 1) + bytes([0, 1, 2, 3, 4, 5]) + struct.pack("!HHH", 8, 2, 100) + struct.pack("!HHHH", 6, 4, 23, 24) \
         + struct.pack("!HHIII", 3, 12 + 28, 9, 1000, 2000) + struct.pack("!HH", 5, 24) + bytes([0x20, 1, 0xd, 0xb8] + [0] * 11 + [5]) + struct.pack("!II", 300, 400)
